@@ -60,3 +60,18 @@ cdef datetime_from_timestamp(double timestamp):
     microseconds += <int>tmp
 
     return DATETIME_EPOC + timedelta_new(days, seconds, microseconds)
+
+
+cdef datetime_from_ms_timestamp(int64_t timestamp):
+    """
+    Exact counterpart of util.utc_datetime_from_ms_timestamp for an integer number
+    of milliseconds ('//' and '%' on C integers round towards minus infinity here,
+    as in Python).
+    """
+    cdef int64_t days = timestamp // 86400000
+    cdef int64_t milliseconds = timestamp % 86400000
+    if days > 999999999 or days < -999999999:
+        # timedelta_new() does no range checks
+        raise OverflowError("timestamp %d ms is out of range for datetime" % timestamp)
+    return DATETIME_EPOC + timedelta_new(<int> days, <int> (milliseconds // 1000),
+                                         <int> (milliseconds % 1000) * 1000)
